@@ -1,25 +1,27 @@
 (* Dispatcher from case kinds (strings) to model functions and property
    oracles.  Everything the OCaml runner executes goes through run_case. *)
 From Coq Require Import ZArith List String.
-From ST Require Import Base.Ints Base.Value Model.NtpTime.
+From ST Require Import Base.Ints Base.Value Base.F64 Model.NtpTime Model.Units.
 Import ListNotations.
-Open Scope Z_scope.
 Open Scope string_scope.
+Open Scope Z_scope.
+
+Definition is (k s : string) : bool := String.eqb k s.
 
 Definition glue_C04 (k : string) (a o : list value) : option verdict :=
-  if k =? "ntp.to64" then
+  if is k "ntp.to64" then
     match a with
     | [VZ sec; VZ nsec] =>
         let x := time64_of_time (mk_time sec nsec) in
         Some (functional [VZ (t64_sec x); VZ (t64_frac x)] o true)
     | _ => None end
-  else if k =? "ntp.from64" then
+  else if is k "ntp.from64" then
     match a with
     | [VZ s; VZ f; VZ rsec; VZ rnsec] =>
         let t := time_of_time64 {| t64_sec := s; t64_frac := f |} (mk_time rsec rnsec) in
         Some (functional [VZ (time_sec t); VZ (time_nsec t)] o true)
     | _ => None end
-  else if k =? "ntp.roundtrip" then
+  else if is k "ntp.roundtrip" then
     match a, o with
     | [VZ sec; VZ nsec; VZ rsec; VZ rnsec], [VZ bsec; VZ bnsec] =>
         let t := mk_time sec nsec in let r := mk_time rsec rnsec in
@@ -27,7 +29,7 @@ Definition glue_C04 (k : string) (a o : list value) : option verdict :=
         Some (functional [VZ (time_sec b); VZ (time_nsec b)] o
                 (C04_roundtrip_ok t r (mk_time bsec bnsec)))
     | _, _ => None end
-  else if k =? "ntp.order" then
+  else if is k "ntp.order" then
     match a, o with
     | [VZ s1; VZ n1; VZ s2; VZ n2; VZ rsec; VZ rnsec], [VZ b1s; VZ b1n; VZ b2s; VZ b2n] =>
         let t1 := mk_time s1 n1 in let t2 := mk_time s2 n2 in let r := mk_time rsec rnsec in
@@ -36,12 +38,75 @@ Definition glue_C04 (k : string) (a o : list value) : option verdict :=
         Some (functional [VZ (time_sec b1); VZ (time_nsec b1); VZ (time_sec b2); VZ (time_nsec b2)] o
                 (C04_order_ok t1 t2 r (mk_time b1s b1n) (mk_time b2s b2n)))
     | _, _ => None end
-  else if k =? "ntp.cmp" then
+  else if is k "ntp.cmp" then
     match a with
     | [VZ s1; VZ f1; VZ s2; VZ f2] =>
         let x := {| t64_sec := s1; t64_frac := f1 |} in let y := {| t64_sec := s2; t64_frac := f2 |} in
         Some (functional [vbool (t64_before x y); vbool (t64_after x y)] o true)
     | _ => None end
+  else None.
+
+Definition glue_C18 (k : string) (a o : list value) : option verdict :=
+  if is k "units.timeval" then
+    match a, o with
+    | [VZ n], [VZ osec; VZ ousec] =>
+        let '(sec, usec) := timeval_from_nsec n in
+        Some (functional [VZ sec; VZ usec] o (C18_timeval_ok n osec ousec))
+    | _, _ => None end
+  else if is k "units.ppm_of_freq" then
+    match a with
+    | [VZ fbits] => Some (functional [VZ (scaled_ppm_from_freq (f_of_bits fbits))] o true)
+    | _ => None end
+  else if is k "units.freq_of_ppm" then
+    match a with
+    | [VZ x] => Some (functional [VZ (f_to_bits (freq_from_scaled_ppm x))] o true)
+    | _ => None end
+  else if is k "units.ppm_roundtrip" then
+    match a, o with
+    | [VZ x], [VZ back] =>
+        Some (functional [VZ (scaled_ppm_from_freq (freq_from_scaled_ppm x))] o (C18_freq_ok x back))
+    | _, _ => None end
+  else if is k "units.drift" then
+    match a with
+    | [VZ drift_ns; VZ d] => Some (functional [VZ (sysclk_drift drift_ns d)] o true)
+    | _ => None end
+  else if is k "csptp.ts_of_time" then
+    match a with
+    | [VZ sec; VZ nsec] =>
+        match csptp_ts_of_time (mk_time sec nsec) with
+        | Some (s, ns) => Some (functional [VZ 1; VZ s; VZ ns] o true)
+        | None => Some (functional [VZ 0] o true)
+        end
+    | _ => None end
+  else if is k "csptp.time_of_ts" then
+    match a with
+    | [VZ s; VZ ns] =>
+        let t := csptp_time_of_ts s ns in
+        Some (functional [VZ (time_sec t); VZ (time_nsec t)] o true)
+    | _ => None end
+  else if is k "csptp.ts_roundtrip" then
+    match a, o with
+    | [VZ s; VZ ns], [VZ okk; VZ bs; VZ bns] =>
+        Some (functional [VZ 1; VZ s; VZ ns] o ((okk =? 1) && (bs =? s) && (bns =? ns))%bool)
+    | _, _ => Some (relational false false) end
+  else if is k "csptp.interval" then
+    match a, o with
+    | [VZ i], [VZ d] => Some (functional [VZ (csptp_dur_of_interval i)] o (C18_interval_ok i d))
+    | _, _ => None end
+  else if is k "csptp.formulas" then
+    match a with
+    | [VZ t0; VZ t1; VZ t2; VZ t3; VZ c1; VZ c3; VZ utc] =>
+        Some (functional [VZ (csptp_clock_offset t0 t1 t2 t3 c1 c3); VZ (csptp_mean_path_delay t0 t1 t2 t3 c1 c3);
+                          VZ (csptp_c2s_delay t0 t1 c1 utc); VZ (csptp_s2c_delay t2 t3 c3 utc)] o true)
+    | _ => None end
+  else if is k "csptp.recover" then
+    (* args: t0 t2 theta delta c1 c3; observed: offset, mean path delay computed by the implementation *)
+    match a, o with
+    | [VZ t0; VZ t2; VZ theta; VZ delta; VZ c1; VZ c3], [VZ off; VZ mpd] =>
+        let t1 := t0 + theta + delta + c1 in let t3 := t2 - theta + delta + c3 in
+        Some (functional [VZ (csptp_clock_offset t0 t1 t2 t3 c1 c3); VZ (csptp_mean_path_delay t0 t1 t2 t3 c1 c3)] o
+                ((off =? theta) && (mpd =? delta))%bool)
+    | _, _ => None end
   else None.
 
 Definition first_some (fs : list (string -> list value -> list value -> option verdict))
@@ -52,4 +117,4 @@ Definition first_some (fs : list (string -> list value -> list value -> option v
      end) fs.
 
 Definition run_case (k : string) (a o : list value) : verdict :=
-  first_some [glue_C04] k a o.
+  first_some [glue_C04; glue_C18] k a o.
